@@ -287,9 +287,10 @@ def confirm(v, resp):
     req = v['case']
     if req['op'] == 'checksum':
         m = {}
-        for st in req['steps']:
+        exact = 'lowered' in resp          # the oracle's own per-character lower-casing of every algorithm (no Python approximation)
+        for si, st in enumerate(req['steps']):
             a = bytes.fromhex(st[1]).decode().lower() if False else bytes.fromhex(st[1]).decode()
-            la = ''.join(c.lower() if len(c.lower()) == 1 or True else c for c in a)
+            la = hx(resp['lowered'][si]).decode() if exact else ''.join(c.lower() for c in a)
             if st[0] == 'insert_raw':
                 m[la] = bytes.fromhex(st[2]).decode()
             elif st[0] == 'insert':
@@ -305,8 +306,11 @@ def confirm(v, resp):
         want = ','.join('%s:%s' % (k, m[k].lower()) for k in sorted(m, key=lambda s: s.encode()))
         got = bytes.fromhex(t['ok']).decode()
         # Python's str.lower() and Rust's per-char to_lowercase agree except for final sigma; tolerate that one case
-        if got != want and 'σ' not in want and 'ς' not in want:
+        if got != want and (exact or ('σ' not in want and 'ς' not in want)):
             return 'text form is %r, canonical text is %r' % (got, want)
+        algs = sorted(hx(x).decode() for x in resp.get('algorithms', []))
+        if exact and algs != sorted(m):
+            return 'algorithms() lists %r, inserted (lower-cased) were %r' % (algs, sorted(m))
         # ... parses back to the same entries, and decoding returns the inserted bytes
         back = resp.get('back')
         if m and back is not None and got == want:
